@@ -598,3 +598,16 @@ def value_chain(fb, b, op, depth=0, out=None):
                 if node['args']:
                     value_chain(fb, b, node['args'][0], depth + 1, out)
     return out
+
+
+def send_sites_deep(fb, b, msg_pat=None, variant=None, depth=2):
+    """blocks of `b` at which a matching actix send happens: the send itself, or a call of a same-crate helper (not a closure) whose region
+    contains one. -> list of (site-like with .bb/.where(), how)"""
+    out = [(s, 'direct') for (s, _m, _v, _a) in sends(b, msg_pat, variant)]
+    for s in b.sites:
+        t = _local_target(b, s)
+        if t is None or t.parent or t is b:
+            continue
+        if any(sends(x, msg_pat, variant) for x in region(fb, t, depth)):
+            out.append((s, 'via ' + t.name.split('::')[-1]))
+    return out
